@@ -17,7 +17,7 @@ def fb : Field := { name := "b", eq := .t, hash := none }
 /-- K1: `@attr.s(unsafe_hash=True, cache_hash=True) class C0: a`, `@attr.s(eq=False) class C1(C0): b`;
     `hash(C1(0, 1))` -/
 def witnessK1 : Case :=
-  { excBase := false,
+  { excBase := false, side := [], sideFirst := false,
     chain := [{ cls0 with unsafeHash := .t, cacheHash := .t, fields := [fa] },
               { cls0 with eq := .f, fields := [fb] }],
     eqc := [0, 1, 2], hcode := [0, 1, 2], keyMap := [0, 1, 2],
@@ -27,7 +27,7 @@ def witnessK1 : Case :=
 /-- K2: `@attr.s(frozen=True, slots=True, cache_hash=True) class C0: a`,
     `@attr.s(cache_hash=True) class C1(C0): b` (frozen by inheritance, dict class); `hash(C1(0, 1))` -/
 def witnessK2 : Case :=
-  { excBase := false,
+  { excBase := false, side := [], sideFirst := false,
     chain := [{ cls0 with frozen := .t, slots := .t, cacheHash := .t, fields := [fa] },
               { cls0 with cacheHash := .t, fields := [fb] }],
     eqc := [0, 1, 2], hcode := [0, 1, 2], keyMap := [0, 1, 2],
@@ -36,7 +36,7 @@ def witnessK2 : Case :=
 
 /-- K5: `x = C(0); hash(x); y = copy.copy(x); y.a = 1; hash(y)` on a dict cache_hash class -/
 def witnessK5 : Case :=
-  { excBase := false,
+  { excBase := false, side := [], sideFirst := false,
     chain := [{ cls0 with unsafeHash := .t, cacheHash := .t, fields := [fa] }],
     eqc := [0, 1, 2], hcode := [0, 1, 2], keyMap := [0, 1, 2],
     insts := [[0]], ops := [.hash 0 [0], .copy 0, .set 1 0 1, .hash 1 [1]] }
@@ -45,9 +45,19 @@ def witnessK5 : Case :=
 /-- a healthy caching class: `@attr.s(unsafe_hash=True, cache_hash=True) class C0: a`;
     `x = C0(0); hash(x); hash(x)` -/
 def witnessOk : Case :=
-  { excBase := false,
+  { excBase := false, side := [], sideFirst := false,
     chain := [{ cls0 with unsafeHash := .t, cacheHash := .t, fields := [fa] }],
     eqc := [0, 1, 2], hcode := [0, 1, 2], keyMap := [0, 1, 2],
     insts := [[0]], ops := [.hash 0 [0], .hash 0 [1]] }
+
+/-- `@attr.s(frozen=True) class S0: pass`, `class S1: pass`, `@attr.s class C0(S1, S0): pass` — the frozen
+    base is listed second, behind a plain mixin -/
+def witnessMI : Case :=
+  { excBase := false,
+    side := [{ cls := { cls0 with api := .plain }, via := none, plainAbove := false },
+             { cls := { cls0 with frozen := .t }, via := none, plainAbove := false }],
+    sideFirst := true,
+    chain := [cls0],
+    eqc := [0, 1, 2], hcode := [0, 1, 2], keyMap := [0, 1, 2], insts := [], ops := [] }
 
 end Attrs.C04
